@@ -3,5 +3,6 @@ CONSTANTS
   MaxTxs = 2
   OutShapes <- OutsSmall
   InShapes <- InsSmall
+  SampleSize = 0
   Faults = {"none", "getWallet", "txHashes", "getTx", "utxos", "mempoolUtxos", "depositRequest", "movedRequest"}
 INVARIANTS EmitAll
